@@ -16,6 +16,11 @@ CHECKS = {
             "on any path, every exit keeps tracing on, no mutating operation on host values. Decides the "
             "containment/trace-retention clauses for all programs and inputs at once; does not decide side "
             "effects of user expressions.", "4/C01"),
+    "C02": ("field-provenance by origin expansion bound through the real constructor signatures, loop-shape rule of the stack walk, decision tables of frame_type and value rendering",
+            "Static decision that every field of the snapshot model is fed from the designated source of the same frame/value (file, "
+            "function, line, class of self, locals of the loop frame; type name, rendered+truncated text, identity, truncation flag of one "
+            "value; tracepoint, timestamp, frames and table in order), that the stack is walked once per frame from the trigger frame by "
+            "f_back, and of the frame_type and rendering tables. Does not decide rendered text of concrete objects.", "4/C02"),
     "C03": ("decision-table extraction over the comparison atoms of the two at_location implementations, origin expansion of the location tuple, loop-shape and dominance rules",
             "Static decision of the matching tables for every abstract world (every event kind, file/line/name equal or "
             "not), of the origin of the values matched (the callback's own frame) and of the loop shape (all triggers "
